@@ -387,17 +387,30 @@ func (x *Exec) Step(e Ev) {
 	}
 }
 
-// copySpan runs the real CopySpan over [a, b) and reads the output back.
+// copySpan runs the real CopySpan over [a, b) and reads the output back.  The
+// reader gets a fresh (cold) block cache; the blocks holding the keys listed in
+// "warm" are read through that cache first, so that the copy meets runs of cold
+// blocks broken by cache hits.
 func (x *Exec) copySpan(e Ev) {
 	a, b := e.I("a"), e.I("b")
+	warm := []int{}
+	for _, w := range e.L("warm") {
+		warm = append(warm, toInt(w))
+	}
 	out := [][]int{}
 	fail := func(msg string) {
-		x.emit(Ev{"op": "copyspan", "a": a, "b": b, "out": [][]int{{-1, 0, 0, 0}}, "note": msg})
+		x.emit(Ev{"op": "copyspan", "a": a, "b": b, "warm": warm, "out": [][]int{{-1, 0, 0, 0}}, "note": msg})
 	}
+	defer func() {
+		if p := recover(); p != nil {
+			x.Panics = append(x.Panics, fmt.Sprint(p))
+			x.emit(Ev{"op": "copyspan", "a": a, "b": b, "warm": warm, "out": [][]int{{-2, 0, 0, 0}}, "note": fmt.Sprintf("panic: %v", p)})
+		}
+	}()
 	in := &objstorage.MemObj{}
 	in.Write(append([]byte(nil), x.Data...))
 	// CopySpan consults the block cache: the reader needs a cache handle
-	blockCache := cache.New(1 << 20)
+	blockCache := cache.New(16 << 20)
 	defer blockCache.Unref()
 	ch := blockCache.NewHandle()
 	defer ch.Close()
@@ -410,13 +423,27 @@ func (x *Exec) copySpan(e Ev) {
 		return
 	}
 	defer r.Close()
+	if len(warm) > 0 {
+		wit, err := r.NewIter(sstable.NoTransforms, nil, nil, sstable.AssertNoBlobHandles)
+		if err != nil {
+			fail(err.Error())
+			return
+		}
+		for _, k := range warm {
+			wit.SeekGE(x.U.Key(k), base.SeekGEFlagsNone)
+		}
+		if err := wit.Close(); err != nil {
+			fail(err.Error())
+			return
+		}
+	}
 	dst := &objstorage.MemObj{}
 	start := base.MakeInternalKey(x.U.Key(a), base.SeqNumMax, base.InternalKeyKindMax)
 	end := base.MakeRangeDeleteSentinelKey(x.U.Key(b))
 	_, err = sstable.CopySpan(context.Background(), in, r, 0, dst, x.Cfg.WriterOptions(), start, end)
 	if err != nil {
 		if err == sstable.ErrEmptySpan {
-			x.emit(Ev{"op": "copyspan", "a": a, "b": b, "out": out, "note": "emptyspan"})
+			x.emit(Ev{"op": "copyspan", "a": a, "b": b, "warm": warm, "out": out, "note": "emptyspan"})
 			return
 		}
 		fail(err.Error())
@@ -446,7 +473,7 @@ func (x *Exec) copySpan(e Ev) {
 		fail(it.Error().Error())
 		return
 	}
-	x.emit(Ev{"op": "copyspan", "a": a, "b": b, "out": out, "note": ""})
+	x.emit(Ev{"op": "copyspan", "a": a, "b": b, "warm": warm, "out": out, "note": ""})
 }
 
 // RunScript builds the script's table under cfg and replays the script.
